@@ -590,6 +590,9 @@ void BW_MidiSequencer::buildSmfSetupReset(size_t trackCount)
     m_currentPosition.wait = 0.0;
     m_currentPosition.track.clear();
     m_currentPosition.track.resize(trackCount);
+    // The remembered positions point into the track data dropped above
+    m_trackBeginPosition = m_currentPosition;
+    m_loopBeginPosition = m_currentPosition;
 }
 
 bool BW_MidiSequencer::buildSmfTrackData(const std::vector<std::vector<uint8_t> > &trackData)
